@@ -418,7 +418,39 @@ func c20Sign(r *Run, t *tape.Tape, e c20Entry, n int, vec []int) {
 			m.Signatures = append(m.Signatures, &cose.Signature{Headers: hdr(c.key)})
 			signers[i] = c.signer()
 		}
-		if t.Bool(1, 5, "c20.presigned") {
+		if t.Bool(1, 4, "c20.relayed") {
+			// the message object comes out of a decoder (a relay that signs a
+			// received COSE_Sign anew): healthy signing, wire, decode, slots
+			// emptied - the holders retain raw header bytes
+			healthy := make([]cose.Signer, n)
+			for i, c := range calls {
+				healthy[i] = r.signerFor(c.key, false)
+			}
+			var e0 error
+			var wire []byte
+			r.Lib(func() {
+				if e0 = m.Sign(NewEntropy(13), external, healthy...); e0 == nil {
+					wire, e0 = m.MarshalCBOR()
+				}
+			})
+			adopted := false
+			if e0 == nil {
+				m2 := &cose.SignMessage{}
+				r.Lib(func() { e0 = m2.UnmarshalCBOR(wire) })
+				if e0 == nil && len(m2.Signatures) == n {
+					for _, sg := range m2.Signatures {
+						sg.Signature = nil
+					}
+					m, adopted = m2, true
+					r.Probe("message-object-from-decoder")
+				}
+			}
+			if !adopted {
+				for _, sg := range m.Signatures {
+					sg.Signature = nil
+				}
+			}
+		} else if t.Bool(1, 5, "c20.presigned") {
 			// the message was completely signed before (by healthy signers
 			// of the same keys), its payload was edited, and it is signed
 			// again under the fault vector.  Whatever a library thinks of
